@@ -18,7 +18,7 @@ pub fn run_c07(tier: Tier) -> Report {
     rep.set_rule(
         "every (Y,Cb,Cr) in 0..=255^3: (A) uniform 7x1 picture = SIMD lanes 0..3 + remainder slots 0..2; \
          (B) 7 pictures 7x1 with the triple at position p and the complementary colour elsewhere; \
-         (C) every triple inside 16- and 32-wide pictures (no remainder columns); (D) all 512 combinations of byte offsets 0..7 of the three plane slices in their buffers on nine shapes; \
+         (C) every triple inside 16- and 32-wide pictures (no remainder columns); (E) every (Cb,Cr) next to six partners derived from it (neutral, neutral in one component, complemented in one component, off by one) on either side within one group of four pixels; (D) all 512 combinations of byte offsets 0..7 of the three plane slices in their buffers on nine shapes; \
          non-trivial = triple with at least one unclamped channel (1..=254)",
     );
     rep.extra("model_coefficients", json!([m.gray, m.cr2r, m.cr2g, m.cb2g, m.cb2b]));
@@ -142,6 +142,42 @@ pub fn run_c07(tier: Tier) -> Report {
         }
     });
     rep.add_transitions(2 * 65536);
+    // (E) the two chroma samples of one group of four pixels differ: every (Cb,Cr) next to each of six
+    // partners derived from it - neutral, neutral in one component, complemented in one component -
+    // on either side, in a 4x2 and a 7x2 picture (a decision taken for the whole group from one
+    // lane, or from one component of one lane, shows here)
+    (0..65536usize).into_par_iter().for_each(|c| {
+        let (cbv, crv) = ((c >> 8) as u8, c as u8);
+        let partners = [(128u8, 128u8), (cbv, 128), (128, crv), (cbv, 255 - crv), (255 - cbv, crv), (cbv ^ 1, crv ^ 1)];
+        for (pcb, pcr) in partners {
+            for left_first in [true, false] {
+                let (l, r) = if left_first { ((cbv, crv), (pcb, pcr)) } else { ((pcb, pcr), (cbv, crv)) };
+                for w in [4usize, 7] {
+                    let cw = w.div_ceil(2);
+                    let y: Vec<u8> = (0..2 * w).map(|k| [16u8, 125, 200, 235, 81, 41, 106][k % 7].wrapping_add((k / 7) as u8)).collect();
+                    // chroma row: l, r, l, r ...
+                    let cbp: Vec<u8> = (0..cw).map(|k| if k % 2 == 0 { l.0 } else { r.0 }).collect();
+                    let crp: Vec<u8> = (0..cw).map(|k| if k % 2 == 0 { l.1 } else { r.1 }).collect();
+                    match catch(|| yuv420_to_rgba(&y, &cbp, &crp, w)) {
+                        Err(p) => rep.violation(&crate::evidence::panic_sig(&p), format!("{w}x2 picture with chroma pair {l:?},{r:?}: panic {p}"), replay_json(w, &y, &cbp, &crp)),
+                        Ok(o) => {
+                            for k in 0..2 * w {
+                                let x = k % w;
+                                let e = m.conv(y[k], cbp[x / 2], crp[x / 2]);
+                                if o.len() != 8 * w || o[4 * k..4 * k + 4] != e {
+                                    rep.violation_lazy("C07/colour-chroma-pair-in-one-group", || {
+                                        (format!("{w}x2 picture, chroma samples {l:?} and {r:?} side by side: pixel ({x},{}) with luma {} converts to {:?}, model {:?}", k / w, y[k], o.get(4 * k..4 * k + 4), e), replay_json(w, &y, &cbp, &crp))
+                                    });
+                                    break;
+                                }
+                            }
+                        }
+                    }
+                }
+            }
+        }
+    });
+    rep.add_transitions(65536 * 24);
     let n_place = placement_sweep(&rep, &m, "C07", crate::evidence::seed());
     rep.add_transitions(n_place);
     rep.extra("slice_placements", json!(n_place));
